@@ -112,16 +112,6 @@ func RunMem(x *Ctx) {
 	c := x.Case
 	rng := vlib.NewRng(c.Seed)
 	x.Nontrivial = true
-	chunkFeed := func(cn *Conn, total int, gen func(n int) []byte) {
-		for fed := 0; fed < total; {
-			n := 65536
-			if fed+n > total {
-				n = total - fed
-			}
-			cn.FeedAll(gen(n), nil)
-			fed += n
-		}
-	}
 	report := func(before uint64, what string, consumed int) {
 		after := heapNow()
 		delta := int64(after) - int64(before)
@@ -144,9 +134,15 @@ func RunMem(x *Ctx) {
 		sc := NewConn()
 		scall := x.o4StartServer(w, sc)
 		before := heapNow()
-		// feed while the endpoint runs: it drains as we go
-		chunkFeed(sc, memStream, func(n int) []byte { return rng.Bytes(n) })
-		if st := x.Await(sc, scall); st == Blocked {
+		// feed chunk by chunk, each only after the previous one was consumed: a long queue inside
+		// the harness conn would itself keep consumed chunks reachable (its backing array) and
+		// be mistaken for memory held by the endpoint
+		st := Blocked
+		for fed := 0; fed < memStream && st == Blocked; fed += 65536 {
+			sc.FeedAll(rng.Bytes(65536), nil)
+			st = x.Await(sc, scall)
+		}
+		if st == Blocked {
 			report(before, "obfs4 server discarding after a failed handshake", sc.Consumed())
 		}
 		x.FinishHandshake(sc, scall, HsOpts{ConsumedBound: B("obfs4-hs"), ClosesOnFail: true, DiscardsOnFail: true})
